@@ -1948,7 +1948,10 @@ def _i_isinf(args, kw):
 def _i_isfinite(args, kw):
     if is_sym(args[0]):
         return True
-    return bool(numpy.isfinite(args[0]))
+    if hasattr(args[0], "_symarray"):
+        from gsv import colsym
+        return colsym.elementwise(lambda x: True if is_sym(x) else bool(numpy.isfinite(x)), args[0])
+    return bool(numpy.isfinite(args[0])) if numpy.ndim(args[0]) == 0 else numpy.isfinite(args[0])
 
 
 @intrinsic(numpy.round, numpy.around)
@@ -2019,6 +2022,9 @@ INTRINSICS[numpy.sign] = _elementwise(_np_sign)
 def _i_isnan(args, kw):
     if is_sym(args[0]):
         return False      # symbolic reals are never NaN (stated: NaN inputs outside the claim)
+    if hasattr(args[0], "_symarray"):
+        from gsv import colsym
+        return colsym.elementwise(lambda x: False if is_sym(x) else bool(numpy.isnan(x)), args[0])
     return numpy.isnan(args[0])
 
 
